@@ -14,6 +14,8 @@ def run(P, R, L):
     R.clause("ORD-8", "in DB::apply_changes set_prev_sequence_number is dominated by the unlocked section that appends to the "
              "WAL and inserts into the memtable, runs with the mutex held, and is not called inside that section")
     K.ord8_publication(P, R, L)
+    K.ord8b_sequence_range(P, R, L)
+    R.clause("ORD-8b", "sequence range of the group (every acknowledged write is applied exactly once under its own sequence numbers)")
     R.clause("OWN-2", "set_prev_sequence_number is called only from apply_changes and recovery, at held sites; the field is "
              "written only inside VersionSet")
     R.clause("OWN-3", "MemTable::insert is reached only through apply_batch_to_memtable, which is called only from the leader's "
